@@ -346,6 +346,28 @@ func (m *MultiAsset[T]) MarshalCBOR() ([]byte, error) {
 	return cbor.Encode(m.data)
 }
 
+// CheckQuantityRange returns an error if an arbitrary-precision quantity is
+// negative or does not fit in 64 bits. The ledger's value type only admits
+// quantities in [0, 2^64-1] in transaction outputs; the fixed-width
+// instantiations cannot leave their range by construction.
+func (m *MultiAsset[T]) CheckQuantityRange() error {
+	if m == nil {
+		return nil
+	}
+	for _, assets := range m.data {
+		for _, amount := range assets {
+			if v, ok := any(amount).(*big.Int); ok && v != nil {
+				if v.Sign() < 0 || !v.IsUint64() {
+					return errors.New(
+						"multiasset quantity outside the range 0..2^64-1",
+					)
+				}
+			}
+		}
+	}
+	return nil
+}
+
 func (m *MultiAsset[T]) CheckForDuplicateKeys() error {
 	if m != nil && m.duplicateMapKeys {
 		return errors.New("duplicate map key in multiasset")
